@@ -984,6 +984,25 @@ def ret_fold(F, rep, rule, fn):
                        ("%s (`%s`) is used on every success path" % (what, bb["name"])) if ok else
                        ("%s (`%s`) is dropped on some success path: a `ret` inside that child is then never compared with "
                         "the enclosing function's return type" % (what, bb["name"])), line_of(st))
+    # a child's whole result thrown away: `self.definition(statement, ctx)?;` - the `ret`s inside that child are compared with
+    # nothing.  At the top level there is no function they could return from, so the only right use of that result is an error
+    for b in blocks:
+        for st in b["stmts"]:
+            if st.get("k") not in ("Semi", "ExprStmt"):
+                continue
+            e = peel(st["e"])
+            if e.get("k") == "Try":
+                e = peel(e["e"])
+            if e.get("k") == "MethodCall" and (callee(e) or "").startswith(TC) and \
+                    "Option<sylt_common::TyID>" in (e.get("ty") or "") and "Result<" in (e.get("ty") or "") and \
+                    "(" not in (e.get("ty") or "").split("Result<")[1][:8]:
+                n += 1
+                ctxname = _arm_context(_parents_of_node(body, e))
+                key = "%s|%s|%s-result-dropped" % (fname, ctxname or "-", last(callee(e)))
+                rep.ob(rule, key, False,
+                       "%s calls %s() as a statement: the return type of the `ret`s inside that child is thrown away. For a global's "
+                       "initialiser (`X := if c do .. ret n .. end`) the `ret` becomes a `return` of the whole Lua chunk - the globals "
+                       "after it are never initialised and `start` never runs, with exit status 0" % (fname, last(callee(e))), line_of(e))
     # RET-ORIGIN: the return-type half that an arm hands back is made of its children's halves (or None); a fresh type
     # invented there (`Some(push_type(Unknown))`) makes a body without any `ret` look as if it returned something
     for c in nodes(body, "Call"):
